@@ -347,7 +347,7 @@ func runCase(b *rt.Built, s *m.Service, meth *m.Method, c *caseRec) string {
 	hc.Stub = harness.StubSpec{HasResult: meth.Result != nil, Result: c.Result, View: "default"}
 	obs, err := b.H.Do(hc)
 	if err != nil {
-		return "INCONCLUSIVE harness: " + err.Error()
+		return "INCONCLUSIVE: harness: " + err.Error()
 	}
 	if obs.Err != "" {
 		if strings.Contains(obs.Err, "conversion") && c.Kind != "valid" {
